@@ -9,7 +9,7 @@
 (*   the base document harness/c20_doc.json at which this was observed and triaged; any other  *)
 (*   nil dereference is reported.  (Generated from a triaged run; regenerate if the base       *)
 (*   document changes.)                                                                        *)
-EXTENDS Sequences, FiniteSets
+EXTENDS Naturals, Sequences, FiniteSets
 
 RefOpsF == {"ref_dangling", "ref_self", "ref_parent", "ref_wrong_kind", "ref_scalar", "ref_array_elem", "ref_escaped_ptr",
             "ref_hash_only", "ref_empty", "ref_ext_scalar", "ref_ext_array", "ref_ext_empty", "ref_ext_nonjson", "ref_ext_missing",
@@ -37,10 +37,26 @@ Panicked(obs) == {s \in DOMAIN obs : obs[s] = "panic"}
 (* F-C20-8: a component schema that is a composition of itself (allOf / anyOf / oneOf / not -> $ref to itself) and has a     *)
 (*   default or example: document validation checks that value against the schema, the composition hands the same value to   *)
 (*   the same schema again, without end: fatal stack overflow (the process dies; the runner reports the case as "crash").     *)
+(* F-C20-9: InternalizeRefs "inlines" EVERY path item reference by clearing its Ref (derefPaths), also a reference that stays *)
+(*   inside the document.  When the referenced path item is reached again from below itself -- its operation declares a        *)
+(*   callback whose path item is a reference back to it -- the document no longer has a finite rendering: json.Marshal of the  *)
+(*   internalised document overflows the stack (the process dies).  Trigger: a reference graph (spec/RefGraph.tla) in one file *)
+(*   whose closing reference points at a PATH ITEM and whose cycle passes through a callback; observation: the process dies in *)
+(*   a stage that follows InternalizeRefs.                                                                                    *)
+GKindAt(g, n) == IF n = 0 THEN g.root ELSE g.steps[n].to
+IsInlinedPathItemCycle(line, bad) ==
+   /\ bad = {"returns_normally"} /\ line.c.base.kind = "graph" /\ "g" \in DOMAIN line.c /\ "died_in" \in DOMAIN line
+   /\ line.died_in \in {"marshal_after", "internalize_again"} /\ line.obs[line.died_in] \in {"crash", "hang"}   \* (as above)
+   /\ LET g == line.c.g IN
+        /\ GKindAt(g, g.close.back) = "pathItem"
+        /\ \E n \in g.close.back..Len(g.steps) : GKindAt(g, n) = "callback"
 SelfOps == {"schema_self_allof_default", "schema_self_anyof_example", "schema_self_not_default"}
 Class(line, bad) ==
-   IF bad = {"returns_normally"} /\ line.c.base.comps = "full" /\ Len(line.c.muts) = 1 /\ line.c.muts[1].op \in SelfOps
-      /\ line.obs["load"] = "crash" THEN "self_composition_value_check_overflows" ELSE
+   \* (one of the mutations -- thorough applies pairs -- is a self-composition operator, and the process dies validating)
+   IF bad = {"returns_normally"} /\ line.c.base.comps = "full" /\ (\E i \in DOMAIN line.c.muts : line.c.muts[i].op \in SelfOps)
+      /\ ("died_in" \in DOMAIN line => line.died_in \in {"load", "validate", "validate_after"})
+      /\ (\E s \in DOMAIN line.obs : line.obs[s] \in {"crash", "hang"}) THEN "self_composition_value_check_overflows" ELSE   \* ("hang": the watchdog may fire before the 1 GB stack is used up)
+   IF IsInlinedPathItemCycle(line, bad) THEN "internalize_inlines_path_item_cycle" ELSE
    LET ms == (IF "applied" \in DOMAIN line THEN line.applied ELSE <<>>)  msg == IF "msg" \in DOMAIN line THEN line.msg ELSE "" IN
    IF bad # {"returns_normally"} \/ \E s \in DOMAIN line.obs : line.obs[s] \in {"hang", "crash"} THEN "none"
    ELSE IF line.c.base.comps # "full"                       \* the points listed above are nodes of the full base document;
